@@ -1235,6 +1235,10 @@ class ABCPropertyGraph(ABCPropertyGraphConstants):
         assert interfaces is not None
 
         props = self.link_sliver_to_graph_properties_dict(lsliver)
+        # every interface must exist before anything is written (interfaces may be a generator)
+        interfaces = list(interfaces)
+        for i in interfaces:
+            self.get_node_properties(node_id=i)
         self.add_node(node_id=lsliver.node_id, label=ABCPropertyGraph.CLASS_Link, props=props)
         # add edge links to specified interfaces
         for i in interfaces:
